@@ -1,6 +1,7 @@
 SPECIFICATION Spec
 CONSTANTS
-  Nets <- MC_AsIsWitness
+  NetParams <- MC_AsIsWitness
+  MkNet <- NetOfParams
   Questions <- TheQuestion
   NsLimit = 4
   RecLimit = 4
